@@ -1,5 +1,6 @@
 -- root of the library: every property module (so that `lake build` checks all proofs)
 import ShootVerif.Props.C02
 import ShootVerif.Props.C03
+import ShootVerif.Props.C11
 import ShootVerif.Props.C13
 import ShootVerif.Props.C20
